@@ -26,7 +26,13 @@ def parse_number(text, prefix=False):
         return None
     numeral = match.group(0)
     if re.fullmatch(r'[+-]?[0-9]+', numeral):
-        return int(numeral)
+        value = int(numeral)
+        try:
+            float(value)
+        except OverflowError:
+            # too large for a DOUBLE
+            return math.inf if value > 0 else -math.inf
+        return value
     return float(numeral.replace('d', 'e').replace('D', 'e'))
 
 
